@@ -16,6 +16,10 @@
 (***************************************************************************)
 EXTENDS Lifecycle, PropsElem, TraceData, Json
 
+(* TLC orders record fields by the order in which their names were first seen: the tag
+   field k of JSON values must be met before v (heterogeneous values are told apart by k) *)
+LOCAL InternOrderKV == [k |-> 0, v |-> 0]
+
 VARIABLE i
 Init == i = 0
 Next == i < Len(Events) /\ i' = i + 1
